@@ -35,17 +35,35 @@ class Interp:
         self._idiom_cache = {}
         self.watch = {}          # qname -> list of recorded (args, kwargs, result) for rule inspection
         self.loopsyms = {}
+        self.variants = {}       # label -> Conflict describing a scale-variant decision
+        self._capture = None
 
     # ------------------------------------------------------------------ helpers
     @property
     def cur(self):
         return self.frames[-1].fsym if self.frames else None
 
+    def new_variant(self, comp, msg, node):
+        """a data-dependent decision that is not invariant under the scaling: nothing is reported here; the
+        returned label taints everything that depends on the decision and the rule layer reports it if (and only
+        if) it reaches an output"""
+        f = self.cur
+        c = Conflict('variant-decision', comp, msg, node, f.qname if f else '<entry>', f.mod if f else '')
+        for lab, old in self.variants.items():
+            if old.key() == c.key():
+                return lab
+        lab = 'V:%d' % (len(self.variants) + 1)
+        self.variants[lab] = c
+        return lab
+
     def conflict(self, kind, comp, msg, node):
         if self.in_assert:
             return
         f = self.cur
         c = Conflict(kind, comp, msg, node, f.qname if f else '<entry>', f.mod if f else '')
+        if self._capture is not None:
+            self._capture.append(c)
+            return
         if c.key() not in self._ckeys:
             self._ckeys.add(c.key())
             self.conflicts.append(c)
